@@ -100,16 +100,22 @@ def _start_parallel(ctx, first, count, procs, budget, binary):
         n = min(per, first + count - lo)
         if n <= 0:
             break
-        cmd = "VERIF_DEADLINE_S=%d %s run %d %d 2>/dev/null | grep -a '^R '" % (budget, exe, lo, n)
-        ps.append((lo, n, subprocess.Popen(["timeout", "2400", "bash", "-c", cmd], cwd=ctx.tmp, stdout=subprocess.PIPE, universal_newlines=True, errors="replace")))
+        # (into a file: a pipe nobody reads until the other harness is done would fill up and stall it)
+        outf = os.path.join(ctx.tmp, "%s_%d.out" % (binary, i))
+        cmd = "VERIF_DEADLINE_S=%d %s run %d %d 2>/dev/null | grep -a '^R ' > %s" % (budget, exe, lo, n, outf)
+        ps.append((lo, n, subprocess.Popen(["timeout", "2400", "bash", "-c", cmd], cwd=ctx.tmp), outf))
     return ps
 
 
 def _collect(ps):
     recs, missing = [], []
-    for lo, n, p in ps:
-        out, _ = p.communicate()
+    for lo, n, p, outf in ps:
+        p.wait()
         got = []
+        try:
+            out = open(outf, errors="replace").read()
+        except OSError:
+            out = ""
         for l in out.split("\n"):
             if l.startswith("R {"):
                 try:
@@ -277,7 +283,7 @@ def run(ctx):
     count = 260 if ctx.tier == "quick" else 8000
     first = 1 + rng.below(10 ** 9)
     # the restart harness (cheap scenarios) runs beside the clone harness
-    rcount = 600 if ctx.tier == "quick" else 12000
+    rcount = 800 if ctx.tier == "quick" else 9000
     rfirst = 1 + rng.below(10 ** 9)
     rps = _start_parallel(ctx, rfirst, rcount, 2, 45 if ctx.tier == "quick" else 500, "h_restartview")
     recs, missing = _run_parallel(ctx, first, count, max(1, min(core.NPROC, 14) - 2), True, 50 if ctx.tier == "quick" else 600)
